@@ -31,7 +31,7 @@ macro_rules! vec { () => { Vec::new() }; }
 /// an expanded field: a token with the slice of the String API the lifted text uses
 #[derive(Clone, Copy)]
 pub struct Fld(pub u8);
-impl Fld { pub fn as_str(&self) -> &str { "" } pub fn to_owned(&self) -> Fld { *self } }
+impl Fld { pub fn as_str(&self) -> &str { match self.0 { 1 => "w1", 2 => "w2", 70 => "a0", 71 => "a1", _ => "" } } pub fn to_owned(&self) -> Fld { *self } }
 /// an alias value: splits into `n` (0..2) words
 pub struct AliasTok { pub n: usize }
 static ALIAS_WORDS: [Fld; 2] = [Fld(70), Fld(71)];
@@ -52,7 +52,8 @@ pub struct BReg { pub disabled: bool, pub declaration_builtin: bool }
 pub struct BTable { pub decl: Option<BReg> }
 impl BTable { pub fn get(&self, _n: &str) -> Option<&BReg> { self.decl.as_ref() } }
 pub struct ATable { pub alias: Option<AliasTok> }
-impl ATable { pub fn get(&self, _n: &str) -> Option<&AliasTok> { self.alias.as_ref() } }
+/// the one alias there may be is named by the command word (field 1)
+impl ATable { pub fn get(&self, n: &str) -> Option<&AliasTok> { if n.len() == 2 && n.as_bytes()[1] == b'1' && n.as_bytes()[0] == b'w' { self.alias.as_ref() } else { None } } }
 pub struct DSh { pub b: BTable, pub a: ATable, pub status: u8, pub status_changes: u32, pub last_arg_cleared: u8, pub displayed: u8 }
 impl DSh {
     pub fn last_exit_status_change_count(&self) -> u32 { self.status_changes }
